@@ -45,7 +45,7 @@ CLAIMED = {
 
  "C04": ("SQLREC", "exploration",
          "PARTIAL: metamorphic property-based testing of the SQL text per ledger name (recording driver + PostgreSQL lexer); fold-based oracles for the Go-side volume derivations and for storage.InMemoryStore",
-         "PARTIAL CLAIM. The SQL/plpgsql projection (triggers, volume functions, point-in-time reads) cannot be executed without PostgreSQL and is not covered. Covered: (a) every read method's SQL depends on the ledger name exactly through string constants, and every SELECT block (sub-selects, CTE bodies, lateral joins) that reads a ledger-scoped table restricts the ledger itself or joins on a seq key (ledger isolation); (b) Go-side volume derivations equal the fold; (c) InMemoryStore equals the fold; (d) the aggregated-balances statement built in Go (point-in-time bound, address filters, ledger predicate) evaluated over a Go model of the moves table equals the fold of that ledger's entries up to the instant; (e) transactions read back with expand=volumes / effectiveVolumes report the replay's pre- and post-commit volumes (the Go-side derivation in ExpandedTransaction.toCore), for rows the replay defines; (f) the point-in-time statements for transaction and account metadata (one by id / address, or lists with and without a metadata filter, the transaction list read page by page forward and back) evaluated by the mini SQL engine over the revision rows a generated history leaves equal the replay of that history up to the instant.",
+         "PARTIAL CLAIM. The SQL/plpgsql projection (triggers, volume functions, point-in-time reads) cannot be executed without PostgreSQL and is not covered. Covered: (a) every read method's SQL depends on the ledger name exactly through string constants, and every SELECT block (sub-selects, CTE bodies, lateral joins) that reads a ledger-scoped table restricts the ledger itself or joins on a seq key (ledger isolation); (b) Go-side volume derivations equal the fold; (c) InMemoryStore equals the fold; (d) the aggregated-balances statement built in Go (point-in-time bound, address filters, ledger predicate) evaluated over a Go model of the moves table equals the fold of that ledger's entries up to the instant; (e) transactions read back with expand=volumes / effectiveVolumes report the replay's pre- and post-commit volumes (the Go-side derivation in ExpandedTransaction.toCore), for rows the replay defines; (f) the point-in-time statements for transaction and account metadata (one by id / address, or lists with and without a metadata filter, the transaction list read page by page forward and back) evaluated by the mini SQL engine over the revision rows a generated history leaves equal the replay of that history up to the instant; (g) the comparison operator a client writes in a list filter reaches the statement (two different operators never give the same statements, and the statements differ in comparison operators only).",
          "Trusted: bun renders arguments into the statement text; the PostgreSQL lexer; the harness fold; for (d) the harness's model of what the insert trigger writes into moves (one row per posting side, running volumes, insertion date = log date, effective date = transaction timestamp); for (f) the harness's model of the revision rows the history triggers keep and the mini engine's reading of joins, bounds, ORDER BY, LIMIT and DISTINCT ON. NOT covered: 0-init-schema.sql behaviour.",
          "DESIGN.md 5/C04 and 6"),
  "C15": ("LOCKSIM", "exploration",
